@@ -2,6 +2,7 @@
 #include "world.h"
 #include <unistd.h>
 #include <algorithm>
+#include <map>
 
 namespace hwsim {
 
@@ -12,6 +13,13 @@ static std::vector<std::pair<size_t, size_t>> lines_of(const std::string &s) { s
 static std::string elem_of(const std::string &line) { size_t lt = line.find('<'); if (lt == std::string::npos) return "?"; size_t e = line.find_first_of(" >/\n", lt + 1); std::string n = line.substr(lt + 1, e == std::string::npos ? std::string::npos : e - lt - 1); if (n.empty() && lt + 1 < line.size() && line[lt + 1] == '/') { e = line.find_first_of(" >\n", lt + 2); n = "/" + line.substr(lt + 2, e == std::string::npos ? std::string::npos : e - lt - 2); } return n; }
 
 static const int NKINDS = 14;
+// line choice: uniform over lines, or (half of the time) uniform over the element names present and then over the lines of that element, so that
+// rare elements (indexes, u64values, memattr_value, cpukind, info, page_type, userdata, support ...) are damaged as often as <object>
+static size_t pick_line(const std::string &doc, const std::vector<std::pair<size_t, size_t>> &ls, Rng &g) {
+  if (ls.size() < 2 || g.chance(1, 2)) return (size_t)g.below(ls.size());
+  std::map<std::string, std::vector<size_t>> by; for (size_t i = 0; i < ls.size(); i++) by[elem_of(doc.substr(ls[i].first, std::min<size_t>(ls[i].second, 64)))].push_back(i);
+  auto it = by.begin(); std::advance(it, (long)g.below(by.size())); return it->second[g.below(it->second.size())];
+}
 static Fault corrupt(std::string &doc, Rng &g, int kindsel) {
   Fault f; if (doc.empty()) { f.kind = "empty"; return f; }
   size_t n = doc.size(); size_t pos = (size_t)g.below(n);
@@ -22,19 +30,19 @@ static Fault corrupt(std::string &doc, Rng &g, int kindsel) {
   case 3: { f.kind = "dup_block"; size_t l = 1 + (size_t)g.below(200); doc.insert(pos, doc.substr(pos, std::min(l, n - pos))); break; }
   case 4: { f.kind = "swap_blocks"; size_t l = 1 + (size_t)g.below(100), p2 = (size_t)g.below(n); if (pos + l <= n && p2 + l <= n && (pos + l <= p2 || p2 + l <= pos)) for (size_t i = 0; i < l; i++) std::swap(doc[pos + i], doc[p2 + i]); break; }
   case 5: case 6: case 7: {   // attribute value replaced by a boundary / garbage value
-    auto ls = lines_of(doc); auto &ln = ls[g.below(ls.size())]; std::string line = doc.substr(ln.first, ln.second);
+    auto ls = lines_of(doc); auto &ln = ls[pick_line(doc, ls, g)]; std::string line = doc.substr(ln.first, ln.second);
     std::vector<size_t> eqs; for (size_t i = 0; i + 1 < line.size(); i++) if (line[i] == '=' && line[i + 1] == '"') eqs.push_back(i);
     if (eqs.empty()) { f.kind = "attr"; f.what = "none"; break; }
     size_t eq = eqs[g.below(eqs.size())]; size_t ns = line.find_last_of(" <", eq); std::string an = line.substr(ns + 1, eq - ns - 1); size_t ve = line.find('"', eq + 2); if (ve == std::string::npos) { f.kind = "attr"; f.what = "none"; break; }
     static const char *vals[] = {"", "0", "-1", "4294967295", "4294967296", "18446744073709551615", "99999999999999999999999", "0x", "0xffffffff,0xffffffff,0xffffffff", "0x00000001", "0xf...f", "abc", "1e400", "2", "NaN", "&amp;", "&bogus;", "\t", "255", "65536", "Machine", "PU", "Group", "NUMANode", "Misc", "Bridge", "L9Cache", "0-", "1000000", "Capacity", "Locality", "Bandwidth", "Latency", "1", "3", "7", "L2Cache", "MemCache", "OSDevice", "PCIDevice", "18446744073709551000"};
     std::string nv = vals[g.below(sizeof vals / sizeof *vals)]; if (g.chance(1, 6)) { nv = line.substr(eq + 2, ve - eq - 2); if (!nv.empty()) nv[g.below(nv.size())] = (char)('0' + g.below(10)); }
     doc.replace(ln.first + eq + 2, ve - eq - 2, nv); f.kind = "attr"; f.what = elem_of(line) + "." + an; break; }
-  case 8: { auto ls = lines_of(doc); auto &ln = ls[g.below(ls.size())]; f.kind = "drop_line"; f.what = elem_of(doc.substr(ln.first, ln.second)); doc.erase(ln.first, ln.second); break; }
-  case 9: { auto ls = lines_of(doc); auto &ln = ls[g.below(ls.size())]; std::string line = doc.substr(ln.first, ln.second); f.kind = "dup_line"; f.what = elem_of(line); doc.insert(ln.first, line); break; }
-  case 10: { auto ls = lines_of(doc); auto &a = ls[g.below(ls.size())], &b = ls[g.below(ls.size())]; if (a.first == b.first) { f.kind = "move_line"; f.what = "same"; break; } std::string line = doc.substr(a.first, a.second); f.kind = "move_line"; f.what = elem_of(line); if (a.first < b.first) { doc.insert(b.first, line); doc.erase(a.first, a.second); } else { doc.erase(a.first, a.second); doc.insert(b.first, line); } break; }
+  case 8: { auto ls = lines_of(doc); auto &ln = ls[pick_line(doc, ls, g)]; f.kind = "drop_line"; f.what = elem_of(doc.substr(ln.first, ln.second)); doc.erase(ln.first, ln.second); break; }
+  case 9: { auto ls = lines_of(doc); auto &ln = ls[pick_line(doc, ls, g)]; std::string line = doc.substr(ln.first, ln.second); f.kind = "dup_line"; f.what = elem_of(line); doc.insert(ln.first, line); break; }
+  case 10: { auto ls = lines_of(doc); auto &a = ls[pick_line(doc, ls, g)], &b = ls[pick_line(doc, ls, g)]; if (a.first == b.first) { f.kind = "move_line"; f.what = "same"; break; } std::string line = doc.substr(a.first, a.second); f.kind = "move_line"; f.what = elem_of(line); if (a.first < b.first) { doc.insert(b.first, line); doc.erase(a.first, a.second); } else { doc.erase(a.first, a.second); doc.insert(b.first, line); } break; }
   case 11: { size_t v = doc.find("version=\""); f.kind = "version"; if (v != std::string::npos && v < 400) { size_t e = doc.find('"', v + 9); static const char *vs[] = {"1.0", "2.0", "2.1", "3.0", "3.1", "4.0", "0.9", "", "x", "2", "99.99"}; if (e != std::string::npos) doc.replace(v + 9, e - v - 9, vs[g.below(11)]); } break; }
   case 12: case 13: {   // an attribute given twice: a second occurrence with another value is appended to the element's attribute list
-    auto ls = lines_of(doc); auto &ln = ls[g.below(ls.size())]; std::string line = doc.substr(ln.first, ln.second); f.kind = "dup_attr"; f.what = "none";
+    auto ls = lines_of(doc); auto &ln = ls[pick_line(doc, ls, g)]; std::string line = doc.substr(ln.first, ln.second); f.kind = "dup_attr"; f.what = "none";
     std::vector<size_t> eqs; for (size_t i = 0; i + 1 < line.size(); i++) if (line[i] == '=' && line[i + 1] == '"') eqs.push_back(i);
     size_t close = line.find("/>"); if (close == std::string::npos) close = line.rfind('>'); if (eqs.empty() || close == std::string::npos || line.compare(0, 2, "<?") == 0 || line.find("<!") != std::string::npos) break;
     size_t eq = eqs[g.below(eqs.size())]; size_t ns = line.find_last_of(" <", eq); std::string an = line.substr(ns + 1, eq - ns - 1);
